@@ -43,6 +43,7 @@ static void run_op(const std::vector<std::string> &w, const std::string &, out &
     if (op == "reset") { o.result = "ok"; return; }
     if (op == "seq") return run_seq(w, o);
     if (op == "sizes") return run_sizes(o);
+    if (op == "premain") { run_premain(o); return; }
     if (op == "longnoise") return run_longnoise(w, o);
     if (op == "ctx")
     {
@@ -286,6 +287,7 @@ static void gen(rng &r, const std::string &tier)
     bool th = tier == "thorough";
     puts("ctx");
     puts("sizes");
+    puts("premain");
     gen_sessions(r, th);
     for (auto c : {"v1", "v0", "leg"})
     {
